@@ -30,6 +30,7 @@ type Program struct {
 
 	callers        map[*ssa.Function][]Call
 	alias          map[*ssa.Function]string // renamed function -> recorded identity
+	renameCand     map[*ssa.Function]bool   // unmatched new functions with the signature of a disappeared recorded one
 	Renames        []string
 	Normalized     []string // new helpers inlined by the normalisation pre-pass (normalize.go)
 	addrTaken      map[*ssa.Function]bool
